@@ -4,7 +4,11 @@ import common, zoo as zoolib, filelevel, workloads
 from common import Pair, proof_stage, rebuild_tools, build_pqh, build_zoo, Lock, TRUSTED_BASE
 
 MODULE = "PQ.Props.C04"
-THEOREMS = []
+THEOREMS = ["PQ.C04." + t for t in (
+    "segment_spec", "segment_size", "levels_any_segmentation", "spec_levels_any_segmentation", "readLevels_any_segmentation", "readLevels_take",
+    "specPage_levels", "specPage_levels_flat", "snappy_roundtrip", "matchLen_spec", "snappy_element", "unknown_fields_skipped",
+    "unknown_fields_skipped_anywhere", "page_header_unknown_fields", "page_header_bytes_unknown_fields", "data_page_header_unknown_fields",
+    "footer_unknown_fields", "column_meta_unknown_fields", "statistics_irrelevant", "statistics_irrelevant_reader")]
 
 
 def spec_cases(chk, zs, thorough):
